@@ -206,7 +206,7 @@ def run(tier, selftest):
             rep.violation(f"a2ml:{status}:{c['name']}", f"hostile A2ML '{c['name']}' ({c['where']}, IF_DATA '{c['payload']}'): {status} {info[:200]}",
                           {"kind": "hostile", "case": c})
     # (d) random bytes
-    nf = 50000 if thorough else 5000
+    nf = 300000 if thorough else 5000
     rc, flines, err = vlib.run_harness(binp, ["decode-fuzz", "--seed", vlib.seed() + 3, "--n", nf, "--dir", os.path.join(vlib.scratch(), "fuzzdir")], timeout=3000)
     if rc != 0 or not flines:
         vlib.tool_error(f"decode-fuzz failed: {err[-300:]}")
